@@ -24,6 +24,14 @@ class ModbusSim(PeerBase):
         self.mbap_len_bug = None                        # None | 'request' (echo the request's length 6) | 'bytecount'
         self.fault = None                               # None | 'silent' | 'garbage' | ('recverr', errno) | 'eof' | ('exc', code)
 
+    def send_answer(self, s, resp, n):
+        """the answer after `delay`; with frag = (k, gap) in two pieces (the first k bytes, the rest `gap` later)"""
+        fr = getattr(self, "frag", None)
+        if fr and len(resp) > fr[0]:
+            self.send(s, resp[:fr[0]], self.delay, n, 1)
+            return self.send(s, resp[fr[0]:], self.delay + fr[1], n, 2)
+        return self.send(s, resp, self.delay, n)
+
     def faulty(self, s, kind, frame, n):
         """Fault mode of the whole device (C09/C10 API sweeps); returns True when the request was consumed."""
         f = self.fault
@@ -101,13 +109,13 @@ class ModbusSim(PeerBase):
             wrong = 6 if self.mbap_len_bug == "request" else resp[8]
             resp = resp[0:4] + wrong.to_bytes(2, "big") + resp[6:]
         if resp is not None:
-            self.send(s, resp, self.delay, n)
+            self.send_answer(s, resp, n)
 
     def handle(self, req, kind):
         exc = rc.tcp_exception if kind == "tcp" else rc.rtu_exception
         ok = rc.tcp_response if kind == "tcp" else rc.rtu_response
         k, reg = req["kind"], req["reg"]
-        code = self.exc_map.get((rc.fc_of(req), reg))
+        code = self.exc_map.get((rc.fc_of(req), reg)) or self.exc_map.get((rc.fc_of(req), reg, req.get("count")))
         if code:
             return exc(req, code)
         if k == "read":
@@ -245,7 +253,7 @@ class Aa55Sim(ModbusSim):
         else:
             self.unknown.append((n, c))
             return
-        self.send(s, rc.aa55_response(rtype, out), self.delay, n)
+        self.send_answer(s, rc.aa55_response(rtype, out), n)
 
     def setreg(self, reg, v):
         self.regs[reg] = v & 0xFFFF
